@@ -307,7 +307,30 @@ def call_packet(report, db, cg):
               and n.func.attr == 'append'
               and ast.unparse(n.func.value) == '%s.%s' % (init.params[0],
                                                           attr)]
-    if stores:
+    gi = cfg_of(init)
+    extra = []
+    for st in stores:
+        par = {}
+        for n in ast.walk(init.node):
+            for ch in ast.iter_child_nodes(n):
+                par[id(ch)] = n
+        cur = st
+        while cur is not None and not gi.nodes_for(cur):
+            cur = par.get(id(cur))
+        for node in gi.nodes_for(cur) if cur is not None else []:
+            for e, t in boolfn.path_conditions(gi, node):
+                u = ast.unparse(e)
+                if not (u.startswith('issubclass(') and u.endswith(
+                        ', Packet)') and t):
+                    extra.append((u, t))
+    if stores and extra:
+        report.violation(R, 'listener:init-filter', init.path, init.node,
+                         init.qualname, 'a packet type given at '
+                         'registration is kept only when [%s]: a listener '
+                         'registered for several types can lose one of '
+                         'them' % ' and '.join(('' if t else 'not ') + u
+                                               for u, t in extra))
+    elif stores:
         report.ok(R, '__init__ appends each given packet type to %s' % attr)
     else:
         report.violation(R, 'listener:init', init.path, init.node,
